@@ -903,13 +903,10 @@ func (r *Reader) find(key []byte, filtered bool, ro *opt.ReadOptions, noValue bo
 	// Key doesn't use block buffer, no need to copy the buffer.
 	rkey = data.Key()
 	if !noValue {
-		if r.bpool == nil {
-			value = data.Value()
-		} else {
-			// Value does use block buffer, and since the buffer will be
-			// recycled, it need to be copied.
-			value = append([]byte(nil), data.Value()...)
-		}
+		// Value does use block buffer: with a buffer pool the buffer will be
+		// recycled, without one the block may live on in the block cache.
+		// Either way the caller gets its own copy.
+		value = append([]byte(nil), data.Value()...)
 	}
 	data.Release()
 	return
